@@ -42,6 +42,7 @@ type ccase struct {
 	Cfg      sessgen.Cfg     `json:"cfg"`
 	Baseline sessgen.UpdSpec `json:"baseline"` // valid UPDATE sent first
 	Source   string          `json:"source"`   // description of the valid UPDATE the mutant was made from
+	Shape    string          `json:"shape"`    // where the valid UPDATE announces: classic | mp | both (classic NLRI and MP_REACH)
 	Muts     []string        `json:"mutations"`
 	Classes  []string        `json:"classes"`
 	Msg      string          `json:"msg"` // hex of the whole mutant message
@@ -296,7 +297,81 @@ func mutations() []mutation {
 		)
 	}
 	ms = append(ms, mutation{"fixed-size:next-hop+12", func(w *work) bool { return hasAttr(w, wire.AttrNextHop) }, resize(wire.AttrNextHop, 12)})
+	// the length octet INSIDE MP_REACH_NLRI (next hop length) against what the attribute holds; the attribute's own
+	// length and all outer lengths stay consistent
+	hasMPNH := func(w *work) bool { return w.pa.MPReach != nil && len(w.pa.MPReach.NextHop) > 0 }
+	for _, k := range []string{"double", "to-end", "past-end", "plus", "minus", "max"} {
+		ms = append(ms, mutation{"mp-next-hop-length:" + k, hasMPNH, mpNextHopLen(k)})
+	}
+	// MP_REACH_NLRI / MP_UNREACH_NLRI cut inside their fixed part (AFI, SAFI, next hop length, next hop, reserved)
+	ms = append(ms,
+		mutation{"mp-reach-cut", hasMPNH, func(w *work, rng *rand.Rand) {
+			w.attrEdits = append(w.attrEdits, func(attrs []wire.Attr) []wire.Attr {
+				for i := range attrs {
+					if v := attrs[i].Value; attrs[i].Type == wire.AttrMPReach && len(v) >= 5 {
+						fixed := 4 + int(v[3]) + 1
+						if fixed > len(v) {
+							fixed = len(v)
+						}
+						attrs[i].Value = v[:rng.IntN(fixed)]
+					}
+				}
+				return attrs
+			})
+		}},
+		mutation{"mp-unreach-cut", func(w *work) bool { return w.pa.MPUnreach != nil }, func(w *work, rng *rand.Rand) {
+			w.attrEdits = append(w.attrEdits, func(attrs []wire.Attr) []wire.Attr {
+				for i := range attrs {
+					if attrs[i].Type == wire.AttrMPUnreach && len(attrs[i].Value) >= 3 {
+						attrs[i].Value = attrs[i].Value[:rng.IntN(3)]
+					}
+				}
+				return attrs
+			})
+		}})
 	return ms
+}
+
+// mpNextHopLen rewrites the next hop length octet of MP_REACH_NLRI: "double" = twice the real length (16 -> 32 is the
+// length of the legitimate global + link-local form, 4 -> 8), "to-end" = everything behind the octet (no room for the
+// reserved octet), "past-end" = 1…8 more than the attribute holds, "plus" / "minus" = 1…15 more / 1…all less, "max" = 255.
+func mpNextHopLen(kind string) func(*work, *rand.Rand) {
+	return func(w *work, rng *rand.Rand) {
+		w.attrEdits = append(w.attrEdits, func(attrs []wire.Attr) []wire.Attr {
+			for i := range attrs {
+				v := attrs[i].Value
+				if attrs[i].Type != wire.AttrMPReach || len(v) < 5 {
+					continue
+				}
+				real, rest := int(v[3]), len(v)-4
+				n := real
+				switch kind {
+				case "double":
+					n = 2 * real
+				case "to-end":
+					n = rest
+				case "past-end":
+					n = rest + 1 + rng.IntN(8)
+				case "plus":
+					n = real + 1 + rng.IntN(15)
+				case "minus":
+					if real > 0 {
+						n = real - 1 - rng.IntN(real)
+					}
+				case "max":
+					n = 255
+				}
+				if n < 0 {
+					n = 0
+				}
+				if n > 255 {
+					n = 255
+				}
+				v[3] = byte(n)
+			}
+			return attrs
+		})
+	}
 }
 
 // build serialises the mutant body.
@@ -347,8 +422,50 @@ func group(name string) string {
 		return "attribute-content"
 	case strings.HasPrefix(name, "drop:"), name == "mp-next-hop-empty":
 		return "mandatory-attributes"
+	case strings.HasPrefix(name, "mp-next-hop-length:"):
+		return "mp-next-hop-length"
+	case name == "mp-reach-cut", name == "mp-unreach-cut":
+		return "mp-attribute-cut"
 	}
 	return name
+}
+
+// mpFixedPart describes, from the bytes of the message, how the fixed part of its MP_REACH_NLRI / MP_UNREACH_NLRI
+// (AFI, SAFI, next hop length, next hop, reserved octet / AFI, SAFI) relates to the attribute's declared length:
+// "" when every MP attribute holds its fixed part.
+func mpFixedPart(msg []byte) string {
+	if len(msg) < wire.HeaderLen+4 {
+		return ""
+	}
+	b := msg[wire.HeaderLen:]
+	wl := int(binary.BigEndian.Uint16(b))
+	if 4+wl > len(b) {
+		return ""
+	}
+	al := int(binary.BigEndian.Uint16(b[2+wl:]))
+	if 4+wl+al > len(b) {
+		return ""
+	}
+	attrs, _ := wire.SplitAttrs(b[4+wl : 4+wl+al])
+	for _, a := range attrs {
+		v := a.Value
+		switch a.Type {
+		case wire.AttrMPReach:
+			switch {
+			case len(v) < 4:
+				return "mp-reach-shorter-than-its-header"
+			case len(v) < 4+int(v[3]):
+				return "mp-reach-next-hop-overruns-the-attribute"
+			case len(v) == 4+int(v[3]):
+				return "mp-reach-ends-behind-the-next-hop(no-reserved-octet)"
+			}
+		case wire.AttrMPUnreach:
+			if len(v) < 3 {
+				return "mp-unreach-shorter-than-its-header"
+			}
+		}
+	}
+	return ""
 }
 
 // ---------------------------------------------------------------------------------------------
@@ -455,6 +572,14 @@ func genCase(rng *rand.Rand, muts []mutation) (ccase, bool) {
 		src.Wd = []sessgen.NL{x}
 	}
 	c.Source = src.Describe()
+	switch {
+	case len(src.Ann) > 0 && len(src.MPR) > 0:
+		c.Shape = "both"
+	case len(src.MPR) > 0:
+		c.Shape = "mp"
+	default:
+		c.Shape = "classic"
+	}
 	full, _ := src.Typed()
 	w := &work{opts: opts, wd: sessgen.NLRIs(src.Wd), nlri: sessgen.NLRIs(src.Ann), pa: full}
 	n := 1
@@ -627,7 +752,14 @@ func runCase(idx int, raw json.RawMessage) (res batch.Result) {
 	// the finding is labelled with the mutation group(s) of the mutant (a pair: both, sorted)
 	gs := map[string]bool{}
 	for _, m := range c.Muts {
-		gs[group(m)] = true
+		g := group(m)
+		if g == "mp-next-hop-length" || g == "mp-attribute-cut" {
+			// these mutations end in different defects of the attribute: name the one this message has
+			if fp := mpFixedPart(msg); fp != "" {
+				g = fp
+			}
+		}
+		gs[g] = true
 	}
 	var gl []string
 	for g := range gs {
@@ -664,7 +796,7 @@ func main() {
 		return
 	}
 	vf.Main("C19", "exploration", func(r *vf.Run) {
-		r.Rule("valid UPDATEs (1–4 NLRI in the classic field, MP_REACH IPv4/IPv6, optional withdrawals; full attribute sets; session options drawn as in C20 and negotiated for real) → one mutation (25 %: two) out of: withdrawn-/attribute-length ±k, truncation, appended bytes, short NLRI, prefix length 33…255 / 129…255 in NLRI / withdrawn / MP_REACH / MP_UNREACH, dropped ORIGIN / AS_PATH / NEXT_HOP / all attributes, empty MP next hop, AS_PATH segment count ±, odd AS_PATH / COMMUNITIES / CLUSTER_LIST sizes, every fixed-size attribute one byte longer / shorter (outer lengths kept consistent), last attribute overrunning the region. Only mutants that the strict classifier labels with ≥ 1 class of the statement are cases. Every mutant bio-rd's Decode accepts, and every 100th (thorough: 50th) other one, goes through a fresh Established session that holds 3 (+3 IPv6) valid routes. distinct_nontrivial = distinct (mutation, classes, session kind) among mutants that Decode accepted")
+		r.Rule("valid UPDATEs (1–4 NLRI in the classic field, MP_REACH IPv4/IPv6, optional withdrawals; full attribute sets; session options drawn as in C20 and negotiated for real) → one mutation (25 %: two) out of: withdrawn-/attribute-length ±k, truncation, appended bytes, short NLRI, prefix length 33…255 / 129…255 in NLRI / withdrawn / MP_REACH / MP_UNREACH, dropped ORIGIN / AS_PATH / NEXT_HOP / all attributes, empty MP next hop, AS_PATH segment count ±, odd AS_PATH / COMMUNITIES / CLUSTER_LIST sizes, every fixed-size attribute one byte longer / shorter (outer lengths kept consistent), last attribute overrunning the region, the next hop length octet inside MP_REACH_NLRI doubled (16 -> 32, 4 -> 8: the length of the legitimate two-address form) / set to everything behind it / beyond the attribute / 1…15 more / less / 255 with the attribute itself unchanged, MP_REACH_NLRI / MP_UNREACH_NLRI cut inside their fixed part. About 6 % of the valid UPDATEs carry classic IPv4 NLRI next to an IPv6 MP_REACH_NLRI (routes outside the damaged attribute). Only mutants that the strict classifier labels with ≥ 1 class of the statement are cases. Every mutant bio-rd's Decode accepts (up to a quota per mutation signature and shape of the valid UPDATE: classic NLRI only / MP only / both), and every 100th (thorough: 50th) other one, goes through a fresh Established session that holds 3 (+3 IPv6) valid routes. distinct_nontrivial = distinct (mutation, classes, session kind) among mutants that Decode accepted")
 		r.Assume("a message packet.Decode rejects cannot install anything because establishedState.msgReceived returns before looking at the body; re-checked on a 1–2 % sample of such mutants through real sessions",
 			"removals caused by a malformed UPDATE are not judged", "process-fatal mutants are counted (coverage.process_fatal_*), C21 judges them")
 		var cases []any
@@ -686,7 +818,8 @@ func main() {
 			var mu sync.Mutex
 			perSig := map[string]int{}
 			accBySig := map[string]int{}
-			total, discarded, accepted, rejected, panics := 0, 0, 0, 0, 0
+			total, discarded, accepted, rejected, panics, bothSent := 0, 0, 0, 0, 0, 0
+			mpLenMutants := map[string]int{}
 			classCount := map[string]int{}
 			for base := 0; total < n; base += 4096 {
 				slots := make([]slot, 4096)
@@ -718,6 +851,9 @@ func main() {
 						classCount[cl]++
 					}
 					sig := strings.Join(c.Muts, "+")
+					if len(c.Muts) == 1 && group(c.Muts[0]) == "mp-next-hop-length" {
+						mpLenMutants[c.Muts[0]+"|"+c.Shape]++
+					}
 					if !c.Accepted {
 						rejected++
 						if (base+k)%sampleEvery == 0 {
@@ -731,9 +867,15 @@ func main() {
 					if len(c.Muts) > 1 {
 						q = quotaPair
 					}
-					if perSig[sig] < q {
-						perSig[sig]++
+					// the quota is per (mutations, shape of the valid UPDATE): whether routes exist outside the damaged
+					// part of the message (classic NLRI next to a damaged MP attribute and vice versa) decides what an
+					// accepted mutant can install
+					if qs := sig + "|" + c.Shape; perSig[qs] < q {
+						perSig[qs]++
 						cases = append(cases, c)
+						if c.Shape == "both" {
+							bothSent++
+						}
 					}
 				}
 			}
@@ -747,6 +889,9 @@ func main() {
 				r.Count("class_"+cl, v)
 			}
 			r.Set("decode_accepted_by_single_mutation", singles(accBySig))
+			r.Set("mp_next_hop_length_mutants_by_kind_and_shape", mpLenMutants)
+			r.Count("mp_next_hop_length_doubled_with_classic_nlri", mpLenMutants["mp-next-hop-length:double|both"])
+			r.Count("accepted_mutants_with_classic_and_mp_nlri_sent", bothSent)
 			r.Set("session_quota_per_mutation_signature", map[string]int{"single": quotaSingle, "pair": quotaPair})
 		}
 		for i := 0; i < len(cases) && i < 300; i += 97 {
@@ -759,6 +904,8 @@ func main() {
 				r.Require("class_"+cl, 200)
 				r.Require("session_class_"+cl, 10) // accepted by Decode or not: every class is driven through real sessions
 			}
+			// the inner length octet of MP_REACH_NLRI was really varied on messages that also carry classic NLRI
+			r.Require("mp_next_hop_length_doubled_with_classic_nlri", 5)
 		}
 	})
 }
